@@ -417,11 +417,17 @@ def raw_monty(op, a, b, c, ln):
 class Tape:
     """deterministic randfunc"""
 
-    def __init__(self, tag):
+    def __init__(self, tag, first=None, nfirst=0):
         self.r = random.Random("%d/%s" % (SEED, tag))
+        self.first, self.nfirst = first, nfirst          # the first nfirst bytes drawn are all `first` (boundary tapes), then seeded bytes
 
     def __call__(self, n):
-        return bytes(self.r.getrandbits(8) for _ in range(n))
+        out = bytearray(self.r.getrandbits(8) for _ in range(n))
+        if self.first is not None and self.nfirst > 0:
+            k = min(n, self.nfirst)
+            out[:k] = bytes([self.first]) * k
+            self.nfirst -= k
+        return bytes(out)
 
 
 class FixedBases:
@@ -555,6 +561,11 @@ def prime_jobs(tier):
         tests(n, "composite", 2, "even number")
     for k_, bits in enumerate([159, 160, 161, 255, 256, 257] + ([] if quick else [512, 1024])):
         jobs.append(dict(op="generate_probable_prime", bits=bits, cls="generated prime"))
+    # boundary tapes: the first candidate drawn is the largest (all-ones) / the smallest value of the requested size, later draws are seeded
+    for bits in ([160, 161, r.choice([192, 255, 256, 257, 384])] if quick else [160, 161, 192, 255, 256, 257, 384, 512]):
+        for first in (255, 0):
+            jobs.append(dict(op="generate_probable_prime", bits=bits, cls="generated prime, first candidate all-%s" % ("ones" if first else "zeros"),
+                             first=first, nfirst=(bits + 7) // 8))
     for bits in ([161] if quick else [161, 192, 256]):
         jobs.append(dict(op="generate_probable_safe_prime", bits=bits, cls="generated safe prime"))
     for k_, j in enumerate(jobs):
@@ -585,7 +596,7 @@ def run_prime_job(job, classes):
                 if op in ("generate_probable_prime", "generate_probable_safe_prime"):
                     rec["bits"] = job["bits"]
                     try:
-                        p = getattr(Primality, op)(exact_bits=job["bits"], randfunc=Tape("gen/%s/%d/%d" % (op, job["bits"], job.get("k", 0))))
+                        p = getattr(Primality, op)(exact_bits=job["bits"], randfunc=Tape("gen/%s/%d/%d" % (op, job["bits"], job.get("k", 0)), job.get("first"), job.get("nfirst", 0)))
                         o["tn"] = "Integer" if type(p) is cls else type(p).__name__
                         o["v"] = limbs(int(p))
                     except Exception as ex:
